@@ -209,6 +209,44 @@ def gen_script(rng, style):
     return pools, tasks, horizon_of(pools, tasks), gcs, drops
 
 
+def gen_drop_busy(rng):
+    """'drop the pool, keep the Tasks' while the pool's inner goroutines are all busy with handlers that overran their
+    deadline (they ignore ctx): the later tasks' attempts are handed over and wait for an inner goroutine; the harness drops
+    the pool and collects (and collects again later) in that window. Every accepted task must still run its handler and
+    complete with its result."""
+    n = rng.choice([1, 1, 2])
+    pools = [Pool(8, rng.choice([[], ["s1"]]) if n == 1 else ["s%d" % n]), Pool(8 + 16, ["s2"])]
+    tasks = []
+    TA = MS + 2
+    now = 32
+    hog_end = 0
+    for i in range(n):
+        dur = rng.choice([3, 4, 6]) * TA + 7 + 2 * rng.below(50)
+        tasks.append(MPTask(0, now, ["t%d" % TA] + rng.choice([[], ["e"]]), [(dur, False, rng.range(0, 99), 0)]))
+        hog_end = max(hog_end, now + dur)
+        now += 16
+    first_b = jitter(now + TA + 160)
+    now = first_b
+    TB = rng.choice([10, 20]) * MS + 2
+    for j in range(rng.range(1, 2)):
+        R = rng.choice([1, 1, 2])
+        if R == 1:
+            behs = [(101 + 2 * rng.below(100), rng.chance(1, 2), rng.range(0, 99), rng.choice([0, 0, 3]))]
+        else:
+            behs = [(101 + 2 * rng.below(100), True, -1, rng.range(1, 5)), (101 + 2 * rng.below(100), rng.chance(1, 2), rng.range(0, 99), 0)]
+        tasks.append(MPTask(0, now, ["t%d" % TB] + ([] if R == 1 else ["r%d" % R]) + rng.choice([[], ["e"]]), behs))
+        now += 16
+    # a bystander on the other pool
+    tasks.append(MPTask(1, jitter(now + 32), ["t%d" % (2 * MS + 2)], [(501, True, 7, 0)]))
+    tasks.sort(key=lambda t: t.send)
+    td = jitter(now + rng.choice([160, 320])) + 12          # after the hand-over of the last task, before the hogs end
+    drops = [(0, td)]
+    # further collections: while the hogs are still running, right after they end, and later
+    gcs = sorted({jitter(rng.range(td + 16, max(td + 32, hog_end - 16))) + 4, jitter(hog_end + 16 * rng.range(1, 20)) + 4,
+                  jitter(hog_end + 400) + 4})
+    return pools, tasks, horizon_of(pools, tasks), gcs, drops
+
+
 def jitter(x):
     return (x // 16) * 16
 
